@@ -7,7 +7,7 @@ from luqum.utils import UnknownOperationResolver
 
 CONFIGS = []
 for default in ("should", "must"):
-    for nested in (None, {"n": ["x", "y"]}, {"n": {"x": None, "y": None, "m": ["z"]}}):
+    for nested in (None, {"n": ["x", "y"]}, {"n": {"x": None, "y": None, "m": ["z"]}}, {"n": {"m": ["z"]}}):
         for analysed in (True, False):
             CONFIGS.append({"default_operator": default, "nested_fields": nested,
                             "not_analyzed_fields": [] if analysed else ["text", "t", "o.x", "n.x", "n.y", "n.m.z"]})
@@ -15,6 +15,18 @@ for default in ("should", "must"):
 #: leaves with their field spelling: (query text, needs nested config level)
 LEAVES = ["a", '"p q"', "t:b", "o.x:c", "n.x:d", "n.y:e", "n.m.z:g", "n:(x:d)", "n:(y:e)", "n:(m:(z:g))", "n.m:(z:g)",
           "[1 TO 5]", "t:{2 TO *]", "n.x:[3 TO 4}", "h~2", '"i j"~3', "k^2", "n.x:l~1"]
+
+
+#: always included: two values on the same nested leaf (documents with two objects tell `both in one object` from `one in each`),
+#: negation inside / outside a nested scope, a group whose operands all live one nested level deeper, field names that extend a
+#: nested path without a dot
+TARGETED = [
+    "n.x:d AND n.x:d2", "n:(x:d AND x:d2)", "n:(x:d x:d2)", "n:(x:d OR x:d2)", "n:(NOT x:d)", "NOT n:(x:d)", "n:(-x:d y:e)", "n:(+x:d -x:d2)",
+    "n:(m.z:g AND m.z:g2)", "n:(m:(z:g) AND m:(z:g2))", "n.m:(z:g AND z:g2)", "n:(m.z:g m.z:g2)", "n:(m.z:g OR m.z:g2)", "n:(NOT m.z:g)",
+    "n:(-m.z:g)", "n:(NOT m:(z:g))", "n:(m.z:g AND NOT m.z:g2)", "n:(x:d AND m.z:g AND m.z:g2)", "n.m.z:g AND n.m.z:g2", "NOT n.m.z:g",
+    "n:(m:(z:g AND z:g2))", "n:(m:(NOT z:g))", "n:((m.z:g AND m.z:g2))", "n:((m.z:g AND m.z:g2)^2)",
+    "nx:q", "nx:q AND n.x:d", "n.mz:p", "n:(mz:p)", "n:(mz:p AND m.z:g)", "n.xy:r OR n.x:d", "n_m:s n.m.z:g",
+]
 
 
 def queries(max_leaves):
@@ -28,6 +40,7 @@ def queries(max_leaves):
             out.append(a + op + b)
         out += ["%s AND NOT %s" % (a, b), "%s OR NOT %s" % (a, b), "%s -%s" % (a, b), "+%s %s" % (a, b), "+%s -%s" % (a, b),
                 "NOT (%s OR %s)" % (a, b), "NOT NOT %s" % a]
+    out += TARGETED
     out += ["(a AND t:b) c", "a (t:b AND n.x:d)", "a AND t:b n.x:d", "+a (t:b OR n.x:d) -e", "n:(x:d AND y:e) OR a", "NOT (a AND n.x:d) t:b"]
     if max_leaves >= 3:
         small = ["a", "t:b", "n.x:d", "n.y:e", "n.m.z:g", "n:(x:d)", "o.x:c", "[1 TO 5]"]
